@@ -1339,3 +1339,69 @@ func ruleC18_9(c *Ctx, r *Rep) {
 	}
 	r.Floor("C18.9", n, 1)
 }
+
+// ---------------------------------------------------------------------------
+// C19.6: a pusher that has ended is forgotten. The push service starts a pusher for a push subscription only when its
+// id is absent from the `pushers` map, so an entry whose pusher is done must be removed: the harvest loop ranges over
+// the map and, in the branch selected by the monitor's Done channel, deletes the entry under the loop's own key.
+// Without it, a subscription whose pusher ended (push disabled, endpoint error) is never pushed to again.
+func ruleC19_6(c *Ctx, r *Rep) {
+	fn := r.Anchor("C19.6", "(*services.httpPusher).startPushersOnce")
+	if fn == nil {
+		return
+	}
+	isPushers := func(v ssa.Value) bool {
+		ld, ok := strip(v).(*ssa.UnOp)
+		if !ok || ld.Op != token.MUL {
+			return false
+		}
+		fa, ok := ld.X.(*ssa.FieldAddr)
+		return ok && fieldName(fa.X.Type(), fa.Field) == "pushers"
+	}
+	nStart, nDel := 0, 0
+	for _, f := range append([]*ssa.Function{fn}, fn.AnonFuncs...) {
+		for _, b := range f.Blocks {
+			for _, in := range b.Instrs {
+				if mu, ok := in.(*ssa.MapUpdate); ok && isPushers(mu.Map) {
+					nStart++
+				}
+				call, ok := in.(*ssa.Call)
+				if !ok {
+					continue
+				}
+				bi, isB := call.Call.Value.(*ssa.Builtin)
+				if !isB || bi.Name() != "delete" || len(call.Call.Args) != 2 || !isPushers(call.Call.Args[0]) {
+					continue
+				}
+				// key = the range key of a loop over the same map
+				ownKey := false
+				if ex, isE := strip(call.Call.Args[1]).(*ssa.Extract); isE && ex.Index == 1 {
+					if nx, isN := ex.Tuple.(*ssa.Next); isN {
+						if rg, isR := nx.Iter.(*ssa.Range); isR && isPushers(rg.X) {
+							ownKey = true
+						}
+					}
+				}
+				// in the branch taken when the monitor's Done channel is ready
+				onDone := false
+				for _, cd := range edgeConds(b) {
+					if bo, isBo := cd.V.(*ssa.BinOp); isBo && cd.Pol && bo.Op == token.EQL {
+						if ex, isE := bo.X.(*ssa.Extract); isE {
+							if sel, isS := ex.Tuple.(*ssa.Select); isS && ex.Index == 0 {
+								if k, isK := constInt(bo.Y); isK && int(k) < len(sel.States) && sources(sel.States[k].Chan)["call:Done"] {
+									onDone = true
+								}
+							}
+						}
+					}
+				}
+				if ownKey && onDone {
+					nDel++
+				}
+			}
+		}
+	}
+	r.Check("C19.6", "C19.6:ended-pusher-forgotten", fn.Pos(), nDel >= 1, fmt.Sprintf("%d start site(s) guarded by absence, %d harvest delete(s)", nStart, nDel),
+		"the harvest loop no longer deletes the entry of a pusher whose monitor is done (delete(s.pushers, <range key>) under the Done case): the id stays in the map, so a subscription whose pusher ended — push disabled and enabled again, or an endpoint error — never gets a new pusher and nothing is POSTed to it")
+	r.Floor("C19.6", nStart, 1)
+}
